@@ -47,6 +47,7 @@ fn collect_paths(v: &Value, keep: &[&str], path: &mut Vec<Step>, out: &mut Vec<V
             }
         }
         Value::String(s) if !s.is_empty() => out.push(path.clone()),
+        Value::Number(n) if n.as_u64().map(|x| x > 0).unwrap_or(false) => out.push(path.clone()),
         _ => {}
     }
 }
@@ -198,6 +199,26 @@ impl<'a> Shrinker<'a> {
                             if fails(&cand) {
                                 cur = cand;
                                 improved = true;
+                            }
+                        }
+                    }
+                    Value::Number(n) => {
+                        let v = n.as_u64().unwrap_or(0);
+                        let mut cands = vec![0, v / 2, v.saturating_sub(1)];
+                        cands.dedup();
+                        for c in cands {
+                            if c >= v || self.used >= self.budget {
+                                continue;
+                            }
+                            let mut cand = cur.clone();
+                            if let Some(slot) = get_mut(&mut cand, &path) {
+                                *slot = Value::from(c);
+                            }
+                            self.used += 1;
+                            if fails(&cand) {
+                                cur = cand;
+                                improved = true;
+                                break;
                             }
                         }
                     }
